@@ -1000,7 +1000,7 @@ CLAUSES = [
            doc="2-4 rows of 10^5..2*10^6 elements whose lengths differ by 0..3: shape, starts, element reads, outside-row raises"),
     Clause("narrow_lengths_table", narrow_lengths_case(), run_narrow_lengths, quick=200, thorough=2000,
            doc="flat data + lengths in int8 / int16 whose running total exceeds the type: rows, elements, iteration, slices"),
-    Clause("paired_long_rows", case_paired(eshapes=("scalar",), max_rows=4, max_len=150), run_read, quick=300, thorough=3000,
+    Clause("paired_long_rows", case_paired(eshapes=("scalar",), max_rows=4, max_len=400), run_read, quick=400, thorough=4000,
            doc="paired / (row, cols) / (rows, col) reads on rows long enough that flat offsets exceed 127 / 255"),
     Clause("paired", case_paired(**SC), run_read, quick=900, thorough=5400,
            doc="a[(rows, cols)], a[i, cols], a[rows, j]"),
